@@ -106,6 +106,10 @@ class SelectExtractor(BaseExtractor, SourceHandlerMixin):
                                     "bracketed"
                                 ):
                                     expressions = bracketed.get_children("expression")
+                                    if len(expressions) < 4:
+                                        # staging table, min range, max range and target table are mandatory:
+                                        # with fewer arguments there is no target table to report
+                                        return
                                     holder.add_read(
                                         SqlFluffTable(
                                             escape_identifier_name(expressions[0].raw)
